@@ -143,6 +143,7 @@ package hclsyntax
 //@ ensures fresh(ret) && ret != nil && len(ret.IncludeNewlinesStack) == 1
 
 // verif:func (*peeker).includingNewlines
+//@ props C02,C14,C15
 //@ requires len(p.IncludeNewlinesStack) >= 1
 //@ pure
 //@ ensures ret == p.IncludeNewlinesStack[len(p.IncludeNewlinesStack) - 1]
@@ -157,6 +158,7 @@ package hclsyntax
 // verif:pred stopsAt(p *peeker, i int) = p.NextIndex <= i && i < len(p.Tokens) && !skipped(p, i) && (forall j int :: { p.Tokens[j] } p.NextIndex <= j && j < i ==> skipped(p, j))
 // verif:pred allSkipped(p *peeker) = forall j int :: { p.Tokens[j] } p.NextIndex <= j && j < len(p.Tokens) ==> skipped(p, j)
 // verif:func (*peeker).nextToken
+//@ props C02,C14,C15
 //@ nosafety
 //@ requires len(p.IncludeNewlinesStack) >= 1 && p.NextIndex >= 0
 //@ pure
@@ -164,6 +166,7 @@ package hclsyntax
 //@ loop 1 invariant p.NextIndex <= i && (forall j int :: { p.Tokens[j] } p.NextIndex <= j && j < i ==> skipped(p, j))
 
 // verif:func (*peeker).Peek
+//@ props C02,C14,C15
 //@ nosafety
 //@ requires len(p.IncludeNewlinesStack) >= 1 && p.NextIndex >= 0
 //@ pure
@@ -178,6 +181,7 @@ package hclsyntax
 // The range of the next token is the range of the token Peek returns: skipped comments and
 // newlines never lend their range to the construct that follows them.
 // verif:func (*peeker).NextRange
+//@ props C02,C14,C15
 //@ nosafety
 //@ requires len(p.IncludeNewlinesStack) >= 1 && p.NextIndex >= 0
 //@ pure
